@@ -375,6 +375,17 @@ def build() -> Check:
                          and ast.unparse(c.func.value) == f"{item_}.completion_event"]
                 if not sets6 or not all(c.args or c.keywords for c in sets6):
                     unreleased.append(f"line {asg.lineno}: `{ast.unparse(asg)}`")
+                    continue
+                # the release happens for every item that HAS a waiter: the test around set() is the presence of that very event, and the loop goes on
+                # while the queue is NOT empty (or for ever, left through queue.Empty)
+                for c in sets6:
+                    g_ = par6.get(id(par6.get(id(c))))
+                    if isinstance(g_, ast.If) and ast.unparse(g_.test) not in (f"{item_}.completion_event", f"{item_}.completion_event is not None"):
+                        unreleased.append(f"line {c.lineno}: the release is guarded by `{ast.unparse(g_.test)}`")
+                if isinstance(scope, ast.While):
+                    t_ = ast.unparse(scope.test).replace(" ", "")
+                    if not (t_ == "True" or (t_.startswith("not") and t_.endswith(".empty()")) or t_.endswith(".qsize()>0") or t_.endswith(".qsize()")):
+                        unreleased.append(f"line {scope.lineno}: the drain loop runs while `{ast.unparse(scope.test)}`")
     ck.floor("stop_path_items_taken", n_taken, 1)
     ck.ob("R6.stop-releases-queued-waiters", c_cbf, not unreleased,
           "; ".join(unreleased) + ": an item taken off a queue after the consumer was told to stop is not released with the stop marker (its completion event is not set, "
